@@ -156,24 +156,45 @@ class FsSim:
 
 
 def make_enforcer(root, defaults, enforce_new_defaults=True, overwrite=True, dirs=DIRS, main=MAIN,
-                  dirs_via='override'):
+                  dirs_via='override', enw_via='override'):
+    """enw_via: how enforce_new_defaults gets its value -- 'override' (set_override), 'config_file' (a line in the
+    service's configuration file), 'lib_set_defaults' (the library helper opts.set_defaults, in ONE call together with
+    the policy file name, as services do).  The last one rewrites module-level option objects: call e._verif_restore()
+    when done with the enforcer."""
     from oslo_config import cfg
     from oslo_policy import policy, opts
     conf = cfg.ConfigOpts()
     opts._register(conf)
+    lines = []
     if dirs_via == 'config_file':
         # the way a deployment does it: one `policy_dirs = ...` line per directory in a configuration file
+        lines += ['policy_dirs = %s\n' % d for d in dirs]
+    if enw_via == 'config_file':
+        lines.append('enforce_new_defaults = %s\n' % bool(enforce_new_defaults))
+    if lines:
         os.makedirs(os.path.join(root, 'etc'), exist_ok=True)
         cf = os.path.join(root, 'etc', 'verif.conf')
         with open(cf, 'w') as f:
-            f.write('[oslo_policy]\n' + ''.join('policy_dirs = %s\n' % d for d in dirs))
+            f.write('[oslo_policy]\n' + ''.join(lines))
         conf(['--config-file', cf, '--config-dir', root], project='verif')
     else:
         conf(['--config-dir', root], project='verif')
+    if dirs_via != 'config_file':
         conf.set_override('policy_dirs', list(dirs), group='oslo_policy')
-    conf.set_override('policy_file', main, group='oslo_policy')
-    conf.set_override('enforce_new_defaults', enforce_new_defaults, group='oslo_policy')
+    restore = lambda: None     # noqa
+    if enw_via == 'lib_set_defaults':
+        saved = {o.dest: (o.default, o._set_location) for o in opts._options}
+
+        def restore():
+            for o in opts._options:
+                o.default, o._set_location = saved[o.dest]
+        opts.set_defaults(conf, main, enforce_new_defaults=bool(enforce_new_defaults))
+    else:
+        conf.set_override('policy_file', main, group='oslo_policy')
+        if enw_via == 'override':
+            conf.set_override('enforce_new_defaults', enforce_new_defaults, group='oslo_policy')
     e = policy.Enforcer(conf, overwrite=overwrite)
+    e._verif_restore = restore
     e.suppress_deprecation_warnings = True
     for d in defaults:
         e.register_default(mk_default(d))
